@@ -104,6 +104,9 @@ def with_nest(P, it, b, k, c):
     active = sum(1 for B in P["branches"] if len(B["steps"]) > k)
     path = [b] if (P["kind"]["spawn"] and not P["kind"]["async"] and active > 1) else []
     head, body = c.split("| ", 1)
+    if P.get("nestfn") or P.get("nestfn_"):
+        # the nested invocation stands in ONE helper function that the callbacks of several branches (threads) call
+        return f"{head}| {{ __nestfn(&[{', '.join(str(x) for x in path)}]); {body} }}"
     return f"{head}| {{ {nested_spawn(path, n, False)}; {body} }}"
 
 
@@ -269,6 +272,12 @@ def program_fn(name, P):
         return head + "{\n" + fwd + rest.replace(f"{m}! {{", "__fwd! {", 1)
     inp = macro_input(P)
     cf = canon_fn(P)
+    if P.get("nestfn"):
+        body = program_fn(name, {k: v for k, v in P.items() if k != "nestfn"} | {"nestfn_": True})
+        helper = ("    fn __nestfn(p: &[i64]) {\n        let (q0, q1) = ([p, &[0][..]].concat(), [p, &[1][..]].concat());\n"
+                  "        let _ = join_spawn! { Some(0u8) |> move |v| { rt::nest(&q0); v }, Some(1u8) |> move |v| { rt::nest(&q1); v } };\n    }\n")
+        head, rest = body.split("{\n", 1)
+        return head + "{\n" + helper + rest
     a, sp = P["kind"]["async"], P["kind"]["spawn"]
     cell = "    let __cell = std::cell::Cell::new(0i64);\n    let __c = &__cell;\n" if BOUNDS else ""
     if not a:
